@@ -198,6 +198,10 @@ Definition rl_timer_acks (st : rl_st) : list (Z * Z) :=
 Definition rl_ack (id p : Z) (st : rl_st) : rl_st :=
   rl_set_eps st (rl_upd_ep (fun e => if rl_ep_pos e <? p then rl_ep_set_pos p e else e) id (rl_eps st)).
 
+(* the peer handles the log::SetLogPosition messages of an output stream *)
+Definition rl_feed_acks (id : Z) (o : list rl_out) (st : rl_st) : rl_st :=
+  fold_left (fun s x => match x with RlOutPos p => rl_ack id p s | RlOutMsg _ => s end) o st.
+
 (* MessageHandler 304-315: returns (accepted, state) *)
 Definition rl_recv (id ts : Z) (st : rl_st) : bool * rl_st :=
   match rl_get_ep (rl_eps st) id with
